@@ -10,6 +10,7 @@ import (
 	"encoding/pem"
 	"fmt"
 	"regexp"
+	"strconv"
 	"strings"
 	"sync"
 	"time"
@@ -750,11 +751,33 @@ func match(filter string, attr string) (bool, error) {
 		element = strings.Trim(element, "(")
 		element = strings.Trim(element, ")")
 		element = strings.TrimSpace(element)
-		if strings.Contains(attr, element) {
+		if strings.Contains(attr, unescapeFilter(element)) {
 			return true, nil
 		}
 	}
 	return false, nil
+}
+
+// unescapeFilter turns the \xx escapes of a filter string (RFC 4515) back into
+// the bytes they stand for: a filter decoded from a search request has every
+// non-ASCII byte and every special character of its values escaped, the DNs
+// and member values it is compared with have not.
+func unescapeFilter(s string) string {
+	if !strings.Contains(s, `\`) {
+		return s
+	}
+	var b strings.Builder
+	for i := 0; i < len(s); i++ {
+		if s[i] == '\\' && i+2 < len(s) {
+			if v, err := strconv.ParseUint(s[i+1:i+3], 16, 8); err == nil {
+				b.WriteByte(byte(v))
+				i += 2
+				continue
+			}
+		}
+		b.WriteByte(s[i])
+	}
+	return b.String()
 }
 
 // Conn returns an *ldap.Conn that's connected (using whatever tls.Config is
